@@ -1,17 +1,20 @@
 (* C06 - node and process concurrency limits are never exceeded.
    Only statements here; every proof is `exact <lemma>` (QueueProofs.v).  The model (Queue.v) is the
-   JobQueue used on a compute node (depth = worker count) and by a submitter round (depth =
-   max_nodes, existing = persisted HPC job ids). *)
+   JobQueue used on a compute node (depth = worker count, no existing entries) and by a submitter
+   round (depth = max_nodes, existing = persisted HPC job ids, only guarded submits).
+   An operation sequence `ops` is ANY list of submit / guarded submit / process_queue calls; every
+   process_queue carries the environment's answers (which running entries are complete, with which
+   return code) and every run() its result, so the theorems quantify over all environments. *)
 From Coq Require Import List ZArith NArith Bool Arith.
 From Jade Require Import Base Queue QueueProofs.
 Import ListNotations.
 Open Scope Z_scope.
 
-(* Node level and HPC level, any sequence of operations of any length, any jobs, any completion
-   answers / return codes / run() results: if the queue is constructed with at most `depth`
-   existing entries then in every reachable state no canceled job is left in the outstanding set, at
-   most `depth` entries are outstanding, every run() call left at most `depth` running entries, and
-   the cancel fix-point loop terminated within its bound. *)
+(* Node level and HPC level: if the queue is constructed with at most `depth` existing entries then
+   in every reachable state no canceled job is left in the outstanding set, at most `depth` entries
+   are outstanding, every run() call left at most `depth` running entries (`live` = outstanding
+   entries that are not parked cancels, right after the call), and the cancel fix-point loop
+   terminated within its bound (so `available_jobs` in process_queue is never negative). *)
 Theorem c06_queue_depth_bound : forall depth existing ops,
   Z.of_nat (length (q_out (init existing))) <= depth ->
   let s := run_ops depth (init existing) ops in
@@ -21,3 +24,153 @@ Theorem c06_queue_depth_bound : forall depth existing ops,
   q_err s = false.
 Proof. exact queue_depth_bound. Qed.
 Print Assumptions c06_queue_depth_bound.
+
+Theorem c06_queue_depth_bound_existing : forall depth existing ops,
+  Z.of_nat (length existing) <= depth ->
+  Z.of_nat (length (q_out (run_ops depth (init existing) ops))) <= depth.
+Proof. exact queue_depth_bound_existing. Qed.
+Print Assumptions c06_queue_depth_bound_existing.
+
+(* the compute node: JobQueue.run_jobs(jobs, depth) = submit all, then poll until empty; for all
+   job lists, depths >= 0 and all poll answer sequences of any length *)
+Theorem c06_procs : forall depth jobs polls, 0 <= depth ->
+  let s := run_ops depth (init []) (run_jobs_ops jobs polls) in
+  Z.of_nat (length (q_out s)) <= depth /\
+  forall j blk ok n, In (EvRun j blk ok n) (q_log s) -> Z.of_nat n <= depth.
+Proof.
+  exact (fun depth jobs polls H =>
+           let P := queue_depth_bound depth [] (run_jobs_ops jobs polls) H in
+           conj (proj1 (proj2 P)) (proj1 (proj2 (proj2 P)))).
+Qed.
+Print Assumptions c06_procs.
+
+(* HPC level, also when MORE ids are persisted than max_nodes allows: with the operations
+   HpcSubmitter.run performs (process_queue, `if not is_full(): submit(batch)`) nothing is ever left
+   queued inside the JobQueue, outstanding never exceeds max(depth, #existing), and every run()
+   (= sbatch) leaves at most `depth` outstanding *)
+Theorem c06_hpc_bound : forall depth existing ops,
+  Forall guarded_op ops ->
+  let k := Z.of_nat (length (q_out (init existing))) in
+  let s := run_ops depth (init existing) ops in
+  q_queued s = [] /\ noparked (q_out s) /\
+  Z.of_nat (length (q_out s)) <= Z.max depth k /\
+  (forall j blk ok n, In (EvRun j blk ok n) (q_log s) -> Z.of_nat n <= depth) /\
+  q_err s = false.
+Proof. exact queue_hpc_bound. Qed.
+Print Assumptions c06_hpc_bound.
+
+(* one submitter round: k persisted ids, one squeue snapshot answering which are complete, then any
+   number of batches each handed over only while not full, sbatch succeeding or failing;
+   max_nodes = None is sys.maxsize *)
+Theorem c06_nodes_round : forall max_nodes existing answers batches,
+  let depth := hpc_depth max_nodes in
+  let s := run_ops depth (init existing) (hpc_round_ops answers batches) in
+  Z.of_nat (length (q_out s)) <= Z.max depth (Z.of_nat (length (q_out (init existing)))) /\
+  forall j blk ok n, In (EvRun j blk ok n) (q_log s) -> Z.of_nat n <= depth.
+Proof.
+  exact (fun max_nodes existing answers batches =>
+           let P := queue_hpc_bound (hpc_depth max_nodes) existing (hpc_round_ops answers batches)
+                                    (hpc_round_ops_guarded answers batches) in
+           conj (proj1 (proj2 (proj2 P))) (proj1 (proj2 (proj2 (proj2 P))))).
+Qed.
+Print Assumptions c06_nodes_round.
+
+(* ---- contracts exported to C02 ---- *)
+Theorem c06_aux_queue_runs_only_unblocked : forall depth existing ops j blk ok n,
+  In (EvRun j blk ok n) (q_log (run_ops depth (init existing) ops)) -> blk = [].
+Proof. exact queue_runs_only_unblocked. Qed.
+Print Assumptions c06_aux_queue_runs_only_unblocked.
+
+Theorem c06_aux_queue_run_after_blockers : forall depth existing ops pre j blk ok n post,
+  q_log (run_ops depth (init existing) ops) = pre ++ EvRun j blk ok n :: post ->
+  forall b, In b (j_block j) -> exists rc, In (EvComplete b rc) pre.
+Proof. exact queue_run_after_blockers. Qed.
+Print Assumptions c06_aux_queue_run_after_blockers.
+
+Theorem c06_aux_queue_unblock_only_on_completion : forall depth existing ops,
+  let s := run_ops depth (init existing) ops in
+  (forall pre jn b post, q_log s = pre ++ EvUnblock jn b :: post -> exists rc, In (EvComplete b rc) pre) /\
+  (forall x, In x (q_queued s) ->
+     incl (qj_block x) (j_block (qj_job x)) /\
+     forall b, In b (j_block (qj_job x)) -> In b (qj_block x) \/ exists rc, In (EvComplete b rc) (q_log s)).
+Proof. exact queue_unblock_only_on_completion. Qed.
+Print Assumptions c06_aux_queue_unblock_only_on_completion.
+
+Theorem c06_aux_queue_runs_once : forall depth existing ops n,
+  (nstarted n (q_log (run_ops depth (init existing) ops)) <= nsubmits n ops)%nat.
+Proof. exact queue_runs_once. Qed.
+Print Assumptions c06_aux_queue_runs_once.
+
+Theorem c06_aux_queue_cancel_excludes_run : forall depth existing ops j1 b1 j2 b2 ok n,
+  In (EvCancel j1 b1) (q_log (run_ops depth (init existing) ops)) ->
+  In (EvRun j2 b2 ok n) (q_log (run_ops depth (init existing) ops)) ->
+  j_name j1 = j_name j2 -> (2 <= nsubmits (j_name j1) ops)%nat.
+Proof. exact queue_cancel_excludes_run. Qed.
+Print Assumptions c06_aux_queue_cancel_excludes_run.
+
+(* ---- contract exported to C04 ---- *)
+Theorem c06_aux_check_completions_cancels_iff : forall s ans s' F rest,
+  check_completions s ans = (s', F, rest) ->
+  exists evs, q_log s' = q_log s ++ evs /\
+    (forall b, In b F <-> exists rc, rc <> 0 /\ In (EvComplete b rc) evs) /\
+    (forall j blk, In (EvCancel j blk) evs ->
+       j_flag j = true /\ (exists b, In b blk /\ In b F) /\
+       exists x, In x (q_queued s) /\ qj_job x = j /\ incl blk (qj_block x)) /\
+    (forall x, In x (q_queued s) ->
+       (exists blk, In (EvCancel (qj_job x) blk) evs) \/
+       (exists x', In x' (q_queued s') /\ qj_job x' = qj_job x /\ incl (qj_block x') (qj_block x))) /\
+    (forall x', In x' (q_queued s') ->
+       must_cancel F x' = false /\
+       exists x, In x (q_queued s) /\ qj_job x' = qj_job x /\ incl (qj_block x') (qj_block x)).
+Proof. exact check_completions_cancels_iff. Qed.
+Print Assumptions c06_aux_check_completions_cancels_iff.
+
+(* ---- non-vacuity / witnesses ---- *)
+Definition J (n : N) (b : list N) (f : bool) : job := {| j_name := n; j_block := b; j_flag := f |}.
+Local Open Scope N_scope.
+
+(* chain 1 <- 2 <- 3 <- 4 (flagged) <- 5 (unflagged), depth 2: job 1 fails; ONE pass cancels 2, 3, 4
+   through the parked entries (three extra iterations), nothing is left parked, 5 is unblocked and
+   started by the same process_queue. *)
+Example c06_chain_cancel :
+  let ops := [OpSubmit (J 1 [] false) true; OpSubmit (J 2 [1] true) true; OpSubmit (J 3 [2] true) true;
+              OpSubmit (J 4 [3] true) true; OpSubmit (J 5 [4] false) true; OpProcess [Some 3%Z] []] in
+  let s := run_ops 2%Z (init []) ops in
+  map e_name (q_out s) = [5] /\ q_queued s = [] /\ q_err s = false /\
+  q_log s = [EvRun (J 1 [] false) [] true 1%nat; EvComplete 1 3%Z;
+             EvCancel (J 2 [1] true) [1]; EvComplete 2 1%Z; EvCancel (J 3 [2] true) [2]; EvComplete 3 1%Z;
+             EvCancel (J 4 [3] true) [3]; EvComplete 4 1%Z; EvUnblock 5 4;
+             EvRun (J 5 [4] false) [] true 1%nat].
+Proof. vm_compute. repeat split. Qed.
+
+(* the depth is reached (the bound is tight) and respected: 5 free jobs, depth 2 *)
+Example c06_depth_reached :
+  let ops := map (fun n => OpSubmit (J n [] false) true) [1; 2; 3; 4; 5] ++ [OpProcess [Some 0%Z; None] []] in
+  let s := run_ops 2%Z (init []) ops in
+  map e_name (q_out s) = [2; 3] /\ map qname (q_queued s) = [4; 5] /\
+  q_log s = [EvRun (J 1 [] false) [] true 1%nat; EvRun (J 2 [] false) [] true 2%nat; EvComplete 1 0%Z;
+             EvRun (J 3 [] false) [] true 2%nat].
+Proof. vm_compute. repeat split. Qed.
+
+(* a round with 3 persisted ids, max_nodes 2: one id is reported complete -> still full -> no
+   batch is accepted; next snapshot reports another complete -> exactly one batch is accepted
+   (the first sbatch fails and is not counted) *)
+Example c06_round_overfull :
+  let s1 := run_ops 2%Z (init [100; 101; 102]) (hpc_round_ops [Some 1%Z; None; None] [(1001, true); (1002, true)]) in
+  let s2 := run_ops 2%Z (init [101; 102]) (hpc_round_ops [Some 1%Z; None] [(1001, false); (1002, true); (1003, true)]) in
+  map e_name (q_out s1) = [101; 102] /\ map e_name (q_out s2) = [102; 1002].
+Proof. vm_compute. split; reflexivity. Qed.
+
+(* Why c06_queue_depth_bound needs #existing <= depth and c06_hpc_bound needs guarded submits: an
+   UNGUARDED submit into a queue constructed over-full is started by process_queue, because
+   `available_jobs = depth - len(outstanding)` is negative and `len(jobs_to_pop) >= available_jobs`
+   holds after the first start.  Neither JobRunner (no existing entries) nor HpcSubmitter (guarded)
+   does this; the real JobQueue behaves the same (directed correspondence case). *)
+Example c06_overfull_unguarded_submit_quirk :
+  let s := run_ops 1%Z (init [101; 102; 103]) [OpSubmit (J 1 [] false) true; OpProcess [] []] in
+  map e_name (q_out s) = [101; 102; 103; 1].
+Proof. vm_compute. reflexivity. Qed.
+
+Example c06_none_is_maxsize :
+  hpc_depth None = 9223372036854775807%Z /\ is_full (hpc_depth None) (init [1; 2; 3]) = false.
+Proof. vm_compute. split; reflexivity. Qed.
